@@ -219,6 +219,24 @@ class TreeGen:
                                  "ch": [self.op(dims[i], dims[i + 1], d) for i in range(nf)]},
                                 same_shape=(dims[0], dims[1]) == (dims[-2], dims[-1]))
 
+    def k_kronprod(self, r, c, d=0):
+        """(A1 x A2 [x a]) @ (B1 x B2 [x b]): two Kronecker operators whose leading factors conform pairwise; a surplus
+        factor necessarily has a unit inner dimension (a: N x 1 on the left, b: 1 x N on the right), so the factor counts
+        of the two operands may differ."""
+        r1 = self.pick(divisors(r))
+        r2 = self.pick(divisors(r // r1))
+        rs = r // (r1 * r2)
+        d1 = self.pick(divisors(c))
+        d2 = self.pick(divisors(c // d1))
+        ds = c // (d1 * d2)
+        c1, c2 = self.integer(1, 3), self.integer(1, 3)
+        left = [self.op(r1, c1, 0), self.op(r2, c2, 0)] + ([self.op(rs, 1, 0)] if rs > 1 or self.integer(1, 4) == 1 else [])
+        right = [self.op(c1, d1, 0), self.op(c2, d2, 0)] + ([self.op(1, ds, 0)] if ds > 1 or self.integer(1, 4) == 1 else [])
+        if rs > 1 and len(left) == 2 or ds > 1 and len(right) == 2:
+            raise AssertionError("unreachable")
+        return {"k": "prod", "via": self.pick(["op", "ctor"]),
+                "ch": [{"k": "kron", "via": self.pick(["fn", "ctor"]), "ch": left}, {"k": "kron", "via": self.pick(["fn", "ctor"]), "ch": right}]}
+
     def _share_last(self, node, same_shape=True):
         """now and then the last child is the very same operator object as the first (A + A, kron(A, B, A), A @ A)"""
         ch = node["ch"]
